@@ -41,6 +41,8 @@ def build():
             if it.name in ("Request", "Response") and any(n in ("request", "response") for n, _ in it.attrs):
                 index[(c, tuple(it.mods), it.name)] = it
     modelled, custom = [], []
+    queries = []
+    LEAF = ("str", "id", "enum", "bool", "int")
     for path in gen_c16_endpoints.endpoint_modules():
         segs = path.split("::")
         crate = CRATE_DIR[segs[0]]
@@ -79,13 +81,25 @@ def build():
                     sch = ("struct", "%s_%s" % ("_".join(segs), which), fields_of(it, body))
                     shape = "struct" if body else "empty"
                 modelled.append((path, which, shape, other, sch))
+                if which == "Request" and other["query"] and not any("query_all" in f.ruma_api for f in live):
+                    try:
+                        qf = fields_of(it, [f for f in live if "query" in f.ruma_api])
+                        for f in qf:
+                            t = f["ty"]
+                            if not (t[0] in LEAF or (t[0] in ("opt", "vec") and t[1][0] in LEAF)):
+                                raise c18.Custom("query member %s of type %s" % (f["name"], t[0]))
+                            if f["aliases"]:
+                                raise c18.Custom("alias on a query member")
+                        queries.append((path, shape, other["path"], ("struct", "%s_Query" % "_".join(segs), qf)))
+                    except c18.Custom:
+                        pass
             except c18.Custom as e:
                 custom.append((path, which, str(e)))
-    return modelled, custom
+    return modelled, custom, queries
 
 
 def gen_coq(built=None):
-    modelled, custom = built or build()
+    modelled, custom, queries = built or build()
     defs, order, rows = {}, [], []
     for path, which, shape, other, sch in modelled:
         rows.append("  (%s, %s, %s)" % (c18.cs(path), c18.cs(which), c18.coq_ty(sch, defs, order)))
@@ -96,16 +110,24 @@ def gen_coq(built=None):
            "From Base Require Import Prelude Json.", "From C18 Require Import Serde.", ""]
     for n in order:
         out.append(defs[n])
+    defs2, order2 = dict(defs), []
     out.append("Definition endpoint_bodies : list (str * str * ty) := [\n%s ].\n" % ";\n".join(rows))
+    qrows = ["  (%s, %s)" % (c18.cs(p), c18.coq_ty(sch, defs2, order2)) for p, sh, pt, sch in queries]
+    for n in order2:
+        out.append(defs2[n])
+    out.append("(** the typed query strings (the #[ruma_api(query)] fields of a Request) whose members are leaves,\n"
+               "    Option<leaf> or Vec<leaf> *)\n"
+               "Definition endpoint_queries : list (str * ty) := [\n%s ].\n" % ";\n".join(qrows))
     out.append("Definition custom_bodies : list (str * str * str) := [\n%s ].\n" % ";\n".join(
         "  (%s, %s, %s)" % (c18.cs(p), c18.cs(w), c18.cs(r)) for p, w, r in custom))
     return "\n".join(out)
 
 
 def gen_json(built=None):
-    modelled, custom = built or build()
+    modelled, custom, queries = built or build()
     return json.dumps({"bodies": [{"endpoint": p, "which": w, "shape": sh, "other": o, "schema": s}
                                   for p, w, sh, o, s in modelled],
+                       "queries": [{"endpoint": p, "shape": sh, "path": pt, "schema": s} for p, sh, pt, s in queries],
                        "custom": [{"endpoint": p, "which": w, "reason": r} for p, w, r in custom]},
                       indent=1, sort_keys=True) + "\n"
 
@@ -123,7 +145,8 @@ def generators(dump_dir):
 
 if __name__ == "__main__":
     from collections import Counter
-    modelled, custom = build()
+    modelled, custom, queries = build()
+    print(len(queries), 'query structs')
     print(len(modelled), "modelled;", len(custom), "custom")
     print(Counter(sh for _, _, sh, _, _ in modelled))
     c = Counter(r.split(":")[0] if ":" in r else r for _, _, r in custom)
